@@ -471,9 +471,9 @@ func (r *repState) step(e event) {
 				have[x] = true
 			}
 			for _, x := range r.img.log {
-				if x.index > n.snapIndex && !have[x] {
+				if x.index > n.snapIndex && !have[x] && code == codeOK {
 					code = codeEntriesLost
-					r.badWhy = fmt.Sprintf("entries-not-durable: entry %d (term %d) was acknowledged as saved, after the power cut it is missing", x.index, x.term)
+					r.badWhy = fmt.Sprintf("acknowledged-entry-missing-after-restart (gap): entry %d (term %d), above the latest recorded snapshot (index %d), was acknowledged as saved; after the power cut / restart the log read back starts at %d", x.index, x.term, n.snapIndex, firstOf(n.log))
 				}
 			}
 		}
@@ -483,7 +483,7 @@ func (r *repState) step(e event) {
 	case 'F':
 		code = codeCompletedLost
 		if e.index == 0 {
-			r.badWhy = fmt.Sprintf("not-readable-after-power-cut: the store cannot be opened or read back; acknowledged term %d, vote %d and entries up to index %d are lost", r.img.term, r.img.vote, r.img.lastDurable())
+			r.badWhy = fmt.Sprintf("not-readable-after-restart: the store cannot be opened or read back, or the replica cannot start; acknowledged term %d, vote %d and entries up to index %d are lost", r.img.term, r.img.vote, r.img.lastDurable())
 		}
 	default:
 		return
@@ -499,6 +499,13 @@ func (r *repState) cloneState() *repState {
 	c := *r
 	c.img = r.img.clone()
 	return &c
+}
+
+func firstOf(es []ent) uint64 {
+	if len(es) == 0 {
+		return 0
+	}
+	return es[0].index
 }
 
 func (r *repState) badText() string {
